@@ -50,6 +50,10 @@ TABLE = [
      "the SPANS record of spans without attributes, events or links, relabelled SPAN_EVENTS or SPAN_LINKS, passed for an events/links record: success with no telemetry"),
     ("fix: the main record returned by RelatedDataFrom", "C07", "no-panic", "", "main-record-released-early", 200,
      "RelatedDataFrom released the main record it returns; a main payload delivered twice (second time under a related label) made the consumer index a freed record and panic"),
+    ("fix: a payload whose type differs from the stream", "C07", "no-panic", "fault=schema_id_stale_in_batch", "stale-id-of-same-batch", 300,
+     "a payload given a schema id that the producer retires in the same batch (held until then by another payload type) was fed to that stream's still registered IPC reader: dictionary deltas landed in the wrong dictionaries and the decode panicked (index out of range)"),
+    ("fix: a panic while received records are converted", "C07", "no-panic", "", "panic-after-accepted-damaged-batch", 300,
+     "a batch with a dropped / duplicated / emptied / diverted payload was accepted, its readers stayed out of step, and the next healthy batch panicked in unchecked dictionary indexing instead of being rejected with an error"),
     ("fix: the consumer drops its IPC readers", "C14", "no-panic", "", "readers-kept-after-failed-batch", 400,
      "after a batch failed half-way in Consume (memory limit reached inside an IPC message) the readers stayed registered out of step with the producer; the next batch panicked in dictionary indexing"),
     ("fix: a refused batch no longer leaves", "C08", "no-panic", "", "rows-left-after-refusal", 8000,
@@ -86,7 +90,12 @@ def main():
     by_commit = {}
     for row in TABLE:
         by_commit.setdefault(row[0], []).append(row)
+    only_name = os.environ.get("ONLY_NAME")  # restrict to one witness name
     for prefix, rows in by_commit.items():
+        if only_name:
+            rows = [r for r in rows if r[4] == only_name]
+            if not rows:
+                continue
         if only and not any(r[1] in only for r in rows):
             continue
         commit = find_commit(prefix)
